@@ -249,6 +249,54 @@ def special_name_ok(i, x, typed):
     return True
 
 
+MEMBER_NAMES = ["", " ", "\x00", "0", "-", "a b", "__class__", "_dict", "name", "None", "\ud800", "\U0001d518", "{0}", "%s", "a" * 70]
+
+
+def undeclared_member_ok(i, how, typed, x):
+    from vf.common import realize
+
+    from vf.common import _tracing
+
+    x = -1 if realize(x < 0) else 1  # messages are REAL here (un-stubbed): keep the value concrete, only its sign matters
+    typed = bool(realize(typed))
+    if _tracing():  # every input is decided: run the concrete case untraced
+        from crosshair.tracers import NoTracing
+        from vf.prelude import real_hash
+
+        with NoTracing(), real_hash():
+            return _undeclared_member_ok(i, how, typed, x)
+    return _undeclared_member_ok(i, how, typed, x)
+
+
+def _undeclared_member_ok(i, how, typed, x):
+    """members the schema does not declare, with unusual names (the empty string first), handled by a schema-valued
+    additionalProperties / a patternProperties regex / propertyNames / dependencies: failing and passing values never crash"""
+    from vf.common import parse_s
+
+    name = MEMBER_NAMES[i]
+    sub = [{"type": "integer", "minimum": 0}, {"type": "string", "minLength": 2}, {"anyOf": [{"type": "null"}, {"maxItems": 0, "type": "array"}]},
+           {"oneOf": [{"type": "integer"}, {"minimum": 0}]}, {"allOf": [{"type": "integer"}, {"not": {"const": 0}}]}][how % 5]
+    S = {"properties": {"known": {"type": "integer"}}}
+    if how < 5:
+        S["additionalProperties"] = sub
+    elif how < 10:
+        S["patternProperties"] = {"": sub}
+    elif how < 12:
+        S["propertyNames"] = {"minLength": 1, "pattern": "^[a-z]"}
+        S["additionalProperties"] = how == 10
+    else:
+        S["dependencies"] = {name: sub if how == 12 else ["known"]}
+    if typed:
+        S.update({"type": "object", "title": "T"})
+    if not parse_total(S):
+        return False
+    el = parse_s(S)
+    for v in ({name: x}, {name: "s"}, {name: None}, {name: [x]}, {name: {name: x}}, {name: x, "known": x}, {name: "long enough"}):
+        if not total(el, v):
+            return False
+    return True
+
+
 def harnesses(ctx) -> List[H]:
     hs: List[H] = []
     for name, (hargs, pre, S) in GROUPS.items():
@@ -293,6 +341,9 @@ def harnesses(ctx) -> List[H]:
     hs.append(mk("c10_revalidate_results", "i: int, w: List[Dict[str, int]]", ["0 <= i < 5", "len(w) <= 2", "all(len(d) <= 1 and all(k in ('a', 'b') for k in d) for d in w)"],
                  "return revalidate_total(concretize_int(i, 0, 4), w)", timeout=400, group="validation",
                  covers="two-step pipelines: the result of an accepted call (anonymous objects / model instances / floats inside arrays) validated again by the same and by 7 stricter elements (uniqueItems, const/enum, items/contains, compositions, object keywords)"))
+    hs.append(mk("c10_undeclared_member_names", "i: int, how: int, typed: bool, x: int", [f"0 <= i < {len(MEMBER_NAMES)}", "0 <= how < 14"],
+                 f"return undeclared_member_ok(concretize_int(i, 0, {len(MEMBER_NAMES) - 1}), concretize_int(how, 0, 13), typed, x)", timeout=600, group="names", message_stub=False,
+                 covers=f"{len(MEMBER_NAMES)} unusual member names (empty string, blanks, NUL, dunder, surrogate, format characters, long) x 14 ways an undeclared member is judged (additionalProperties / patternProperties sub-schemas of 5 kinds, propertyNames, dependencies) x typed/untyped x 7 value shapes"))
     hs.append(mk("c10_deep_nesting", "n: int, x: Union[int, bool, None]", ["0 <= n <= 40"],
                  'return total(parse_s({"uniqueItems": True, "const": nest(3, x)}), nest(n, x)) and total(parse_s(nest_schema(n, {"type": "integer"})), nest(n, x)) and total(parse_s({"enum": [nest(n, 1)]}), nest(n, x))',
                  timeout=400, group="arrays", covers="nesting depth n <= 40 built from a symbolic n"))
